@@ -720,7 +720,7 @@ def end_to_end_failures(n, seed, limit=3):
 
 
 def bounded_end_to_end(chk):
-    n = 40 if chk.tier == 'quick' else 1500
+    n = 40 if chk.tier == 'quick' else 500
     fails = end_to_end_failures(n, 90 + chk.seed)
     chk.bounded_check('end-to-end-fits', 'real fit_peaks / remove_peaks on synthetic spectra: one result per peak, windows, statistics recomputed independently, requirements of '
                       'successful results, narrow windows, estimates outside the data, removal frame', f'{n} spectra with 1..6 peaks, window widths 0.001..25, all model specifications', n, fails)
